@@ -101,7 +101,7 @@ GJoin ==
     /\ \E local \in (IF Mode = "disc" THEN W(<<FALSE, FALSE, FALSE, TRUE>>) ELSE R({TRUE, FALSE})), color \in R({"red", "blue", ""}),
           feats \in (IF Mode = "stall" THEN W(<<FeatAll, FeatAll, <<"callee:call_canceling">>, <<>>>>) ELSE R(FeatSets)),
           lid \in R({"u1", "u2"}), rid \in R({"alice", "bob", "carol"}) :
-       \E qs \in W(IF Mode = "stall" THEN <<0, 1, 1, 2, 2>> ELSE <<0>>) :
+       \E qs \in W(IF Mode = "stall" /\ Scripted THEN <<1, 1, 2>> ELSE IF Mode = "stall" THEN <<0, 1, 1, 2, 2>> ELSE <<0>>) :
        LET s == Names[n]
            j == [authid |-> IF local THEN lid ELSE rid, color |-> color, feats |-> feats, local |-> local, q |-> qs, tr |-> ""]
            i == [In0 EXCEPT !.op = "join", !.s = s, !.join = j]
@@ -280,7 +280,8 @@ GUnregister ==
 GCall ==
   \E s \in J : \E hit \in R(1..3) :
   \E u \in R(LET routable == {t \in Targets : BestRegs(Cur, t) # {}} IN IF routable # {} /\ hit # 1 THEN routable ELSE Targets) :
-  \E dme \in W(<<FALSE, FALSE, TRUE>>), rprog \in R(BOOLEAN), tmo \in W(<<0, 0, 1, 50, 1000>>) :
+  \E dme \in (IF Scripted THEN {FALSE} ELSE W(<<FALSE, FALSE, TRUE>>)), rprog \in (IF Scripted THEN {TRUE} ELSE R(BOOLEAN)),
+     tmo \in (IF Scripted THEN {0} ELSE W(<<0, 0, 1, 50, 1000>>)) :
     LET o == [O0 EXCEPT !.dme = dme, !.rprog = rprog, !.tmo = tmo]
         i == [In0 EXCEPT !.op = "call", !.s = s, !.req = N, !.uri = u, !.tag = Tag, !.o = o]
     IN IF BestRegs(Cur, u) = {}
@@ -329,7 +330,9 @@ GYield ==
         blocked == {calls[c].inv : c \in {cc \in DOMAIN calls : calls[cc].callee = s /\ sess[cc[1]].stalled}}
         any  == used.inv[s] \cup {NextId(used.inv[s]) + 5}
     IN \E own \in R(1..4) : \E inv \in R(IF blocked # {} /\ own # 1 THEN blocked ELSE IF mine # {} /\ own # 1 THEN mine ELSE any) :
-       \E prog \in W(<<FALSE, FALSE, TRUE>>) :
+       \* (a progressive result first, to fill the queue of a caller that does not read)
+       \E prog \in (IF Scripted /\ blocked # {} /\ \E cc \in DOMAIN calls : calls[cc].inv = inv /\ calls[cc].callee = s /\ Room(Cur, cc[1])
+                    THEN {TRUE} ELSE W(<<FALSE, FALSE, TRUE>>)) :
          LET i == [In0 EXCEPT !.op = "yield", !.s = s, !.id = inv, !.tag = Tag, !.o = [O0 EXCEPT !.prog = prog]]
          IN Step(i, YieldFx(Cur, s, inv, prog, Tag))
 
@@ -548,7 +551,7 @@ GenNext ==
   /\ \E coin \in R(1..2) :
      \E kind \in (IF Mode = "hs"
                    THEN (IF J = {} /\ Challenged = {} THEN {"helloobs"} ELSE IF J = {} THEN {"authgood"} ELSE W(KindBag))
-                   ELSE IF Cardinality(J) < 2 /\ \E n \in DOMAIN Names : Names[n] \notin DOMAIN sess
+                   ELSE IF (IF Scripted THEN Len(h) < 2 ELSE Cardinality(J) < 2) /\ \E n \in DOMAIN Names : Names[n] \notin DOMAIN sess
                    THEN {"join"}
                    ELSE IF Len(h) = Depth - 1 /\ \E n \in DOMAIN KindBag : KindBag[n] = "bmix" THEN {"bmix"}
                    ELSE IF Len(h) = Depth - 1 /\ \E n \in DOMAIN KindBag : KindBag[n] = "bslow" THEN {"bslow"}
